@@ -207,6 +207,9 @@ def c2s(ctx, ntexts, nmut):
         if cl.startswith("domain:"):
             excluded[cl] = excluded.get(cl, 0) + 1
             continue
+        if cl.startswith("known:"):
+            ctx.violation("C04:" + cl[6:], "known dependency gap: %s" % cl[6:], m)
+            continue
         ctx.nontrivial_add((m["text"], m["strict"], m["entry"]))
         if cl:
             key = cl + (":" + rec["serst"] if cl == "serialize-raised" else "")
